@@ -227,7 +227,7 @@ FALLBACK_PROPS = ('C03', 'C04', 'C12', 'C16')
 NATIVE_TWINS = {
     # property -> (test file in bounded_native/, [test fn names or None for all], stated bound)
     'C17': ('c17_registration_model', None,
-            '4000 pseudo-random sequences x 16 operations (register, unregister, toggle side, move either king) on a two-king board vs a reference multiset of (placement, side to move) and a reference stack; one game through the Game API in which the start position recurs: draw reported exactly at the third occurrence'),
+            '4000 pseudo-random sequences x 16 operations (register, unregister, toggle side, move either king) on a two-king board vs a reference multiset of (placement, side to move) and a reference stack; one game through the Game API in which the start position recurs: draw reported exactly at the third occurrence; 300 shuffling walks x 40 plies of real legal play from the starting position (rights lost by rook / king moves, en-passant targets, a third of the plies taken back): reported count == registrations of the same (placement, side to move, castling rights, en-passant target)'),
     'C01': ('c01_perft_suite', ['leaf_counts_match_the_published_perft_figures_with_a_fresh_generator', 'en_passant_is_offered_on_every_file_pair'],
             'en passant on all 14 adjacent file pairs x 2 colours; five standard perft positions (start 1..5, Kiwipete 1..3, position 3 1..4, position 4 1..3, position 5 1..3): leaf counts of generate_moves + apply + undo against the published figures, board restored'),
     'C02': ('c01_perft_suite', ['leaf_counts_do_not_depend_on_what_the_generator_was_asked_before'],
@@ -243,7 +243,7 @@ NATIVE_TWINS = {
     'C07': ('c07_search_model', None,
             '16 positions (10 pseudo-random openings, mated, stalemated, single reply, in check, promotion next, en passant) x depths 0..3, fresh context: legal move / right error, every observable of the board unchanged, no panic'),
     'C08': ('c08_minimax_model', None,
-            '9 positions x depths 1..3 with a fresh context and 4 games x 8 plies at depth 3 with one reused context: reported score == unpruned uncached reference minimax, returned move attains it'),
+            '9 positions x depths 1..3 with a fresh context, 4 games x 8 plies at depth 3 with one reused context, and one context through 16 unrelated positions (values far apart in both directions, both sides to move) at depths 2 and 3: reported score == unpruned uncached reference minimax, returned move attains it'),
     'C10': ('c10_perft_model', None,
             '4 positions x depths 0..3 x rayon pools {1,2,3,4,7,16} x fresh/reused generator: count_positions == reference count (20, 420, 9322, 206603 from the start position), board unchanged'),
     'C11': ('c11_attack_geometry', None,
@@ -251,7 +251,7 @@ NATIVE_TWINS = {
     'C18': ('c18_score_model', None,
             'every (piece, colour) alone on every square, 3000 pseudo-random placements of up to 14 men, nine queens: score == -score(colour-swapped rotated position), |score| below every mate score; stalemate 0 and strictly better quicker mates at remaining depths 0..255'),
     'C14': ('c14_c15_game_model', ['coordinate_pairs_accepted_iff_legal_played_exactly_rejected_without_effect', 'typed_labels_accepted_iff_legal_played_exactly_rejected_without_effect'],
-            '5 positions x all 4096 coordinate pairs (accepted iff legal, successor board and history on acceptance, nothing changed on rejection); notation strings, bounded only: 7 games x 12 plies typed as labels (3 crafted lines: tempo loss twice, two knights on b1/e4 reaching d2; labels of a position pairwise distinct), near-miss labels of the other side / previous position rejected without effect'),
+            '5 positions x all 4096 coordinate pairs (accepted iff legal, successor board and history on acceptance, nothing changed on rejection); notation strings, bounded only: 7 games x 12 plies typed as labels (3 crafted lines: tempo loss twice, two knights on b1/e4 reaching d2; labels of a position pairwise distinct), near-miss labels (of the other side, of the previous position, with the case of the first letter flipped) rejected without effect'),
     # not a bounded twin but an EXHAUSTIVE evaluation of this build's book data (C15, second sentence); run in both tiers
     'C15:book': ('c15_book_lines', None,
                  'EXHAUSTIVE for the data of this build: every path of the compiled opening book and every line of opening_lines.txt'),
